@@ -61,6 +61,10 @@ template <typename Number> void congruence<Number>::normalize(void) {
   // Set to standard form: 0 <= b < a for a != 0
   if (m_a != 0) {
     m_b = m_b % m_a;
+    if (m_b < 0) {
+      // operator% truncates: the remainder has the sign of m_b
+      m_b = m_b + m_a;
+    }
   }
 }
 
